@@ -86,11 +86,16 @@ type stack struct {
 }
 
 func newStack(rc *simrt.RunCtx, rl *relay, pr *prng, authSize int, maxVersion byte) *stack {
+	return newStackV(rc, rl, pr, authSize, maxVersion, maxVersion)
+}
+
+// newStackV: the two sides may support different maximum handshake versions.
+func newStackV(rc *simrt.RunCtx, rl *relay, pr *prng, authSize int, maxVClient, maxVServer byte) *stack {
 	st := &stack{rc: rc, relay: rl, stop: make(chan struct{}), plain: map[string]bool{}}
 	st.ctx, st.cancel = context.WithCancel(context.Background())
 	pass := pr.bytes(14)
 	st.auth = marker(rc.Seed()^0xa07, authSize)
-	mk := func(name string, auth []byte) *stackSide {
+	mk := func(name string, auth []byte, maxVersion byte) *stackSide {
 		sd := &stackSide{name: name, key: pr.ecdh()}
 		sd.data = NewConnData(sd.key, nil, append([]byte(nil), pass...), auth,
 			func(k *btcec.PublicKey) error {
@@ -108,7 +113,7 @@ func newStack(rc *simrt.RunCtx, rl *relay, pr *prng, authSize int, maxVersion by
 		sd.creds = NewNoiseGrpcConn(sd.data, WithMaxHandshakeVersion(maxVersion))
 		return sd
 	}
-	st.S, st.C = mk("server", st.auth), mk("client", nil)
+	st.S, st.C = mk("server", st.auth, maxVServer), mk("client", nil, maxVClient)
 	st.srv = newSimServer(rl, st.S.data)
 	st.cli = newSimClient(st.ctx, rl, st.C.data)
 	st.planBytes = func(string, int) int { return 16 + rc.Pick(60000, "wl.plan") }
@@ -484,7 +489,16 @@ func (st *stack) clientLoop() {
 					return
 				}
 				st.rc.Probe("c11.early-dial")
-				r, e := st.cli.Dial(st.ctx, "")
+				// gRPC dials with a context that may expire while Dial is
+				// still waiting for the previous connection to end
+				dctx := st.ctx
+				if st.rc.Pick(2, "wl.earlydial-ctx") == 1 {
+					var dcancel func()
+					dctx, dcancel = context.WithTimeout(st.ctx, time.Duration(200+st.rc.Pick(5000, "wl.earlydial-timeout"))*time.Millisecond)
+					defer dcancel()
+					st.rc.Probe("c11.early-dial-with-deadline")
+				}
+				r, e := st.cli.Dial(dctx, "")
 				ch <- dialRes{r, e}
 			}()
 		}
@@ -540,4 +554,41 @@ func (sd *stackSide) snapshot(in *instance) instance {
 	sd.mu.Lock()
 	defer sd.mu.Unlock()
 	return *in
+}
+
+// oneSidedPairing reports whether exactly one side stored the other's static
+// key although a connection on which data flowed in both directions (so both
+// Noise handshakes had completed) exists. A legitimate half-pairing - the
+// responder never saw act 3 - has no such connection.
+func (st *stack) oneSidedPairing() (bool, string) {
+	st.C.mu.Lock()
+	ck := len(st.C.gotKeys)
+	var cdone []int
+	for _, in := range st.C.insts {
+		if in.peerTotal > 0 {
+			cdone = append(cdone, in.k)
+		}
+	}
+	st.C.mu.Unlock()
+	st.S.mu.Lock()
+	sk := len(st.S.gotKeys)
+	both := -1
+	for _, in := range st.S.insts {
+		if in.peerTotal > 0 {
+			for _, k := range cdone {
+				if in.peerK == k {
+					both = k
+				}
+			}
+		}
+	}
+	st.S.mu.Unlock()
+	if (ck > 0) == (sk > 0) || both < 0 {
+		return false, ""
+	}
+	who := "the client stored the server's key, the server stored nothing"
+	if sk > 0 {
+		who = "the server stored the client's key, the client stored nothing"
+	}
+	return true, who
 }
